@@ -59,5 +59,40 @@ def main(argv=None):
     return rc
 
 
+class _Tolerant:
+    """stdout that survives a reader closing the pipe early (`./check C01 | head -1`): the verdict is the exit code, which must not
+    turn into a traceback because the last lines of the report had nowhere to go"""
+
+    def __init__(self, f):
+        self.f, self.dead = f, False
+
+    def write(self, x):
+        if self.dead:
+            return len(x)
+        try:
+            return self.f.write(x)
+        except BrokenPipeError:
+            self.dead = True
+            return len(x)
+
+    def flush(self):
+        if not self.dead:
+            try:
+                self.f.flush()
+            except BrokenPipeError:
+                self.dead = True
+
+    def __getattr__(self, k):
+        return getattr(self.f, k)
+
+
 if __name__ == "__main__":
-    sys.exit(main())
+    sys.stdout = _Tolerant(sys.stdout)
+    rc = main()
+    try:
+        sys.stdout.flush()
+    except Exception:
+        pass
+    if sys.stdout.dead:
+        os.dup2(os.open(os.devnull, os.O_WRONLY), 1)  # keep the interpreter's own final flush quiet
+    sys.exit(rc)
